@@ -123,6 +123,7 @@ type FnGen struct {
 	fnPatsV    []*locPat
 	frameN, callN int
 	closures map[*ssa.MakeClosure][]capturedVar
+	boundCallees map[string]bool
 }
 
 type coverPoint struct {
@@ -160,8 +161,25 @@ func (g *FnGen) heap(s *State, sort string) string {
 		return h
 	}
 	n := heapName(sort) + "!0"
-	g.declare(n, "(Array Ref "+sort+")")
-	g.c.reg.heapSorts[sort] = true
+	if _, done := g.declOf[n]; !done {
+		g.declare(n, "(Array Ref "+sort+")")
+		g.c.reg.heapSorts[sort] = true
+		// well-formed initial heap: references held in pre-existing cells denote pre-existing objects
+		var tgt string
+		switch sort {
+		case "Ref":
+			tgt = "(select " + n + " r)"
+		case "Slice":
+			tgt = "(s-arr (select " + n + " r))"
+		case "Iface":
+			tgt = "(i-val (select " + n + " r))"
+		case "Fn":
+			tgt = "(fn-env (select " + n + " r))"
+		}
+		if tgt != "" {
+			g.defs = append(g.defs, fmt.Sprintf("(forall ((r Ref)) (! (=> (< (rid r) next!0) (< (rid %s) next!0)) :pattern ((select %s r))))", tgt, n))
+		}
+	}
 	return n
 }
 
@@ -823,9 +841,9 @@ func (g *FnGen) loopHead(s *State, li *loopInfo) {
 		old := g.heap(pre, k)
 		n := g.fresh(heapName(k)+"_h", "(Array Ref "+k+")")
 		s.heaps[k] = n
-		if hasMod {
-			tinv = append(tinv, g.frameAxiom(fenv, mods, k, old, n, pre.next))
-		}
+		// no modifies clause = modifies nothing visible: only objects allocated since the loop was entered may change
+		_ = hasMod
+		tinv = append(tinv, g.frameAxiom(fenv, mods, k, old, n, pre.next))
 	}
 	for name := range ghostsMod {
 		gd := g.c.ghosts[name]
